@@ -1054,6 +1054,12 @@ def _width_scenarios(rep, src, m, cname, modes):
                 extra = {k_: v_ for k_, v_ in got.items() if k_ != k0}
                 if extra:
                     rep.fail(rid, pw.site, what, 'registers widths %r for fields that are not there' % (extra,), where=pw.where)
+                elif scen == 'single' and md == 'apt-ftparchive' and got.get(k0) != {'size': 16}:
+                    rep.fail(rid, pw.site, what, 'registers %r for the field; under apt-ftparchive the size column is 16 wide whatever the field holds (the record on the field line '
+                             '"MD5Sum: <sum> <size> <name>" is written with an unpadded size, while the same record in the several-line form gets the column)'
+                             % (got.get(k0, 'no width'),), where=pw.where)
+                elif scen == 'single' and md != 'apt-ftparchive' and got.get(k0) not in (None, {'size': 1}):
+                    rep.fail(rid, pw.site, what, 'registers %r for a field whose only record has the size "5"; the width is the longest size present (1)' % (got.get(k0),), where=pw.where)
                 else:
                     rep.ok(rid, pw.site, what, 'nothing raised (%s)' % ('width %r' % (got[k0],) if k0 in got else 'no width registered'))
 
